@@ -335,4 +335,239 @@ def committed (fdOpen : Bool) : List Op → Option Bytes
   | .commit a b :: _ => if fdOpen && !a && !b then some [] else none
   | .close _ :: _ => none
 
+/-! ## names: `filepath.Clean` / `filepath.Dir`, the name handling of `CreateWithMode`, the naming of `CreateTemp` -/
+
+abbrev Str := List Char
+
+def sep : Char := '/'
+
+/-- split at every separator: "a//b/" ↦ ["a", "", "b", ""] -/
+def splitSep : Str → List Str
+  | [] => [[]]
+  | c :: s =>
+    if c = sep then [] :: splitSep s
+    else match splitSep s with
+      | [] => [[c]]
+      | h :: t => (c :: h) :: t
+
+/-- one path element against the stack of kept elements (top first): `filepath.Clean`'s rules 2–4 -/
+def cleanStep (rooted : Bool) (stack : List Str) (comp : Str) : List Str :=
+  if comp = [] ∨ comp = ['.'] then stack                      -- empty element, "."
+  else if comp = ['.', '.'] then
+    match stack with
+    | top :: rest => if top = ['.', '.'] then comp :: stack else rest     -- ".." cancels the element before it
+    | [] => if rooted then [] else [comp]                                  -- "/.." ↦ "/"; a leading ".." is kept
+  else comp :: stack
+
+def joinSep : List Str → Str
+  | [] => []
+  | [a] => a
+  | a :: b :: t => a ++ sep :: joinSep (b :: t)
+
+/-- `filepath.Clean` (Unix) -/
+def clean (p : Str) : Str :=
+  if p = [] then ['.']
+  else
+    let rooted := p.head? = some sep
+    let body := joinSep ((splitSep p).foldl (cleanStep rooted) []).reverse
+    if rooted then sep :: body else if body = [] then ['.'] else body
+
+/-- `filepath.Dir`: everything up to the last separator, cleaned -/
+def dirOf (p : Str) : Str := clean (p.reverse.dropWhile (· ≠ sep)).reverse
+
+/-- last path element (for the kernel's 255-byte limit) -/
+def baseOf (p : Str) : Str := (p.reverse.takeWhile (· ≠ sep)).reverse
+
+/-- `CreateWithMode`: `filename = filepath.Clean(filename)`; empty or ending in a separator → `os.ErrInvalid` -/
+def validName (filename : Str) : Option Str :=
+  if clean filename = [] ∨ (clean filename).getLast? = some sep then none else some (clean filename)
+
+def hasSep (s : Str) : Bool := s.any (· = sep)
+
+/-- `strings.LastIndexByte(pattern, '*')`: (prefix, suffix); no star: everything is prefix -/
+def splitStar (pat : Str) : Str × Str :=
+  match pat.reverse.span (· ≠ '*') with
+  | (_, []) => (pat, [])
+  | (sufRev, _ :: preRev) => (preRev.reverse, sufRev.reverse)
+
+/-- `filepath.Join(dir, pre)` for a non-empty `dir`: empty elements are dropped, the result is cleaned -/
+def joinPath (dir pre : Str) : Str := if pre = [] then clean dir else clean (dir ++ sep :: pre)
+
+/-- the part of the temporary path in front of the random number (`tmpdir` = `os.TempDir()`, used for an empty `dir`) -/
+def tempPrefix (tmpdir dir pat : Str) : Str :=
+  let d := if dir = [] then tmpdir else dir
+  if d ≠ [] ∧ d.getLast? = some sep then d ++ (splitStar pat).1 else joinPath d (splitStar pat).1
+
+/-- `strconv.Itoa` of a non-negative number -/
+def decimal (n : Nat) : Str :=
+  if h : n < 10 then [Char.ofNat (48 + n)] else decimal (n / 10) ++ [Char.ofNat (48 + n % 10)]
+termination_by n
+decreasing_by omega
+
+/-- the path `CreateTemp` tries when its random source yields `r` -/
+def tempName (tmpdir dir pat : Str) (r : Nat) : Str :=
+  tempPrefix tmpdir dir pat ++ decimal r ++ (splitStar pat).2
+
+/-! ## `CreateTemp`'s loop, `CreateWithMode`, and a cleanup whose unlink can fail -/
+
+/-- system calls the first model leaves out: an `openat(O_RDWR|O_CREAT|O_EXCL)` that fails (`exist`: with EEXIST) and an
+    `unlinkat` that fails; neither changes the file system -/
+inductive Act2
+  | openFail (p : Path) (mode : Nat) (exist : Bool)
+  | unlinkFail (p : Path)
+  | base (a : Act)
+deriving DecidableEq, Repr
+
+def applyAct2 (umask : Nat) (fs : FS) : Act2 → FS
+  | .base a => applyAct umask fs a
+  | .openFail _ _ _ => fs
+  | .unlinkFail _ => fs
+
+def run2 (umask : Nat) (fs : FS) : List Act2 → FS
+  | [] => fs
+  | a :: as => run2 umask (applyAct2 umask fs a) as
+
+/-- what the fault assignment does to one `openat`: `exist` — it fails with EEXIST although the name is free;
+    `other` — it fails with another error.  (Nothing can make an `O_EXCL` open of an existing name succeed.) -/
+inductive OpenFault | exist | other
+deriving DecidableEq, Repr
+
+inductive TempRes
+  | ok (p : Path)
+  | errSep          -- "pattern contains path separator", before any system call
+  | errExist        -- 1000 attempts hit existing names: os.ErrExist
+  | errOther        -- another error of openat, returned at once
+deriving DecidableEq, Repr
+
+/-- the loop of `CreateTemp`: attempt `i` tries `names i`; `for { f, err := OpenFile(…O_EXCL…); if IsExist(err) { try++;
+    if try < 1000 { continue }; return ErrExist }; return f, err }`.  `fuel` only makes the recursion structural
+    (`fuel + i = 1000`). -/
+def tempLoop (mode : Nat) (names : Nat → Path) (faults : Nat → Option OpenFault) (fs : FS) :
+    Nat → Nat → TempRes × List Act2
+  | 0, _ => (.errExist, [])
+  | fuel + 1, i =>
+    if faults i = some .other then (.errOther, [.openFail (names i) mode false])
+    else if faults i = some .exist ∨ (fs (names i)).isSome = true then
+      if i + 1 < 1000 then
+        let r := tempLoop mode names faults fs fuel (i + 1)
+        (r.1, .openFail (names i) mode true :: r.2)
+      else (.errExist, [.openFail (names i) mode true])
+    else (.ok (names i), [.base (.createExcl (names i) mode)])
+
+/-- `internal.CreateTemp(dir, pattern, perm)`; `code` names the paths, `rands` is the stream of random numbers -/
+def createTemp (code : Str → Path) (tmpdir dir pat : Str) (mode : Nat) (rands : Nat → Nat)
+    (faults : Nat → Option OpenFault) (fs : FS) : TempRes × List Act2 :=
+  if hasSep pat = true then (.errSep, [])
+  else tempLoop mode (fun i => code (tempName tmpdir dir pat (rands i))) faults fs 1000 0
+
+def safePattern : Str := ['s', 'a', 'f', 'e']
+
+inductive CreateRes
+  | ok (f : File)
+  | invalid                 -- os.ErrInvalid, before any system call
+  | temp (e : TempRes)      -- the error of CreateTemp
+deriving DecidableEq, Repr
+
+/-- `safe.CreateWithMode(filename, mode)` -/
+def createWithMode (code : Str → Path) (tmpdir filename : Str) (mode : Nat) (rands : Nat → Nat)
+    (faults : Nat → Option OpenFault) (fs : FS) : CreateRes × List Act2 :=
+  match validName filename with
+  | none => (.invalid, [])
+  | some c =>
+    match createTemp code tmpdir (dirOf c) safePattern mode rands faults fs with
+    | (.ok p, acts) => (.ok { tmp := p, dst := code c }, acts)
+    | (e, acts) => (.temp e, acts)
+
+/-- the `os.Remove(name)` of the cleanup paths -/
+def rmAct (p : Path) (unlinkFails : Bool) : Act2 := if unlinkFails then .unlinkFail p else .base (.unlink p)
+
+/-- `Commit` with a `Remove` that can fail: `defer func() { if err != nil { _ = os.Remove(name) } }()` — its error is
+    dropped, the close / rename error is what comes back -/
+def File.commitU (f : File) (closeFails renameFails unlinkFails : Bool) : File × Res × List Act2 :=
+  if f.committed then (f, .ok, [])
+  else if f.closed then (f, .invalid, [])
+  else
+    let f' := { f with committed := true, closed := true, fdOpen := false }
+    if !f.fdOpen then (f', .closed, [rmAct f.tmp unlinkFails])
+    else if closeFails then (f', .errno, [.base (.closeFail f.tmp), rmAct f.tmp unlinkFails])
+    else if renameFails then
+      (f', .errno, [.base (.close f.tmp), .base (.renameFail f.tmp f.dst), rmAct f.tmp unlinkFails])
+    else (f', .ok, [.base (.close f.tmp), .base (.rename f.tmp f.dst)])
+
+/-- `Close` with a `Remove` that can fail: `err := f.File.Close(); if removeErr := os.Remove(…); removeErr != nil &&
+    err == nil { err = removeErr }` — the unlink error is reported only when the close succeeded -/
+def File.closeU (f : File) (closeFails unlinkFails : Bool) : File × Res × List Act2 :=
+  if f.committed then (f, .ok, [])
+  else if f.closed then (f, .invalid, [])
+  else
+    let f' := { f with closed := true, fdOpen := false }
+    if !f.fdOpen then (f', .closed, [rmAct f.tmp unlinkFails])
+    else if closeFails then (f', .errno, [.base (.closeFail f.tmp), rmAct f.tmp unlinkFails])
+    else (f', (if unlinkFails then .errno else .ok), [.base (.close f.tmp), rmAct f.tmp unlinkFails])
+
+/-- results of the complete calls -/
+inductive Res2
+  | res (r : Res)
+  | invalid        -- os.ErrInvalid from the name check
+  | sep            -- pattern contains a separator
+  | exist          -- os.ErrExist after 1000 attempts
+  | openErr        -- another error creating the temporary file
+deriving DecidableEq, Repr
+
+def CreateRes.err : CreateRes → Res2
+  | .ok _ => .res .ok
+  | .invalid => .invalid
+  | .temp .errSep => .sep
+  | .temp .errExist => .exist
+  | .temp _ => .openErr
+
+/-- `WriteFileWithMode(filename, writer, mode)` from the name check to the deferred `Close`, with every fault:
+    `ofaults` on the `openat`s of `CreateTemp`, `fault` as in `writeFile`, `unlinkFails` on the `Remove` of the cleanup -/
+def writeFileFull (code : Str → Path) (tmpdir filename : Str) (N mode : Nat) (pieces : List Bytes) (cb : CbMode)
+    (fault : Fault) (rands : Nat → Nat) (ofaults : Nat → Option OpenFault) (unlinkFails : Bool) (fs : FS) :
+    Res2 × List Act2 :=
+  match createWithMode code tmpdir filename mode rands ofaults fs with
+  | (.ok f, acts) =>
+    let w : BW := { failIn := fault.writeAt }
+    let c := callback N f cb fault.stopRes w fault.cbAt pieces
+    if c.2.1 ≠ .ok then
+      let cl := f.closeU false unlinkFails
+      (.res c.2.1, acts ++ c.2.2.map .base ++ cl.2.2)
+    else
+      let fl := c.1.flush f
+      if fl.1.err = true then
+        let cl := f.closeU false unlinkFails
+        (.res .errno, acts ++ c.2.2.map .base ++ fl.2.map .base ++ cl.2.2)
+      else
+        let m := f.commitU (fault = .close) (fault = .rename) unlinkFails
+        let cl := m.1.closeU false unlinkFails
+        (.res (if m.2.1 ≠ .ok then m.2.1 else cl.2.1),
+          acts ++ c.2.2.map .base ++ fl.2.map .base ++ m.2.2 ++ cl.2.2)
+  | (e, acts) => (e.err, acts)
+
+/-- the `safe.File` API used directly, from the name check on: `CreateWithMode`, one `Write` per piece, then
+    `Commit` + `Close` or `Close` alone -/
+def fileRunFull (code : Str → Path) (tmpdir filename : Str) (mode : Nat) (pieces : List Bytes) (doCommit : Bool)
+    (fault : Fault) (rands : Nat → Nat) (ofaults : Nat → Option OpenFault) (unlinkFails : Bool) (fs : FS) :
+    Res2 × List Act2 :=
+  match createWithMode code tmpdir filename mode rands ofaults fs with
+  | (.ok f, acts) =>
+    let w := writeAll f pieces fault.writeAt
+    if w.1 ≠ .ok then
+      let c := f.closeU false unlinkFails
+      (.res w.1, acts ++ w.2.map .base ++ c.2.2)
+    else if doCommit then
+      let m := f.commitU (fault = .close) (fault = .rename) unlinkFails
+      let c := m.1.closeU false unlinkFails
+      (.res (if m.2.1 ≠ .ok then m.2.1 else c.2.1), acts ++ w.2.map .base ++ m.2.2 ++ c.2.2)
+    else
+      let c := f.closeU (fault = .close) unlinkFails
+      (.res c.2.1, acts ++ w.2.map .base ++ c.2.2)
+  | (e, acts) => (e.err, acts)
+
+/-- an injective naming of paths (any injective `code` will do for the theorems; this is the one the driver runs) -/
+def codeStr : Str → Path
+  | [] => 0
+  | c :: s => (c.toNat + 1) + 1114113 * codeStr s
+
 end Safe
